@@ -201,17 +201,169 @@ Proof.
   rewrite (completion_cancelled g s1 L Jl Hc Hl). reflexivity.
 Qed.
 
-Lemma end_31 c g p L0 s1 stat : F31 c g p L0 s1 stat ->
-  negb (throttle c =? 0) || sstatus_eqb stat SABORT || dry c ||
+Lemma end_31 c g p L0 s1 r : F31 c g p L0 s1 r ->
+  negb (throttle c =? 0) || sstatus_eqb r SABORT || dry c ||
   forallb (fun x => impb (subset (parents (attr g x)) (sstage (led c g p L0 s1)))
                          (negb (state_eqb (row_status (rows_of s1) x) INITIALIZED))) (all_nodes g) = true.
 Proof.
   intros F. destruct (throttle c =? 0) eqn:Ht; [|reflexivity]. apply Nat.eqb_eq in Ht.
-  destruct (sstatus_eqb stat SABORT) eqn:Ha; [reflexivity|]. destruct (dry c) eqn:Hd; [reflexivity|].
+  destruct (sstatus_eqb r SABORT) eqn:Ha; [reflexivity|]. destruct (dry c) eqn:Hd; [reflexivity|].
   cbn [negb orb]. apply forallb_forall. intros x Hx. apply In_seq_lt in Hx. rewrite row_status_rows.
   destruct (subset (parents (attr g x)) (sstage (led c g p L0 s1))) eqn:Hs; [|reflexivity]. cbn.
   apply subset_incl in Hs.
   assert (Hn : stat s1 x <> INITIALIZED).
   { apply F; auto. intros ->. discriminate. }
   destruct (stat s1 x); try reflexivity. contradiction.
+Qed.
+
+(** * One poll under the monitor, all codes of [famX] *)
+Lemma famX_In k : In k famX <-> In k famA \/ In k famE.
+Proof. unfold famX. apply in_app_iff. Qed.
+
+Lemma step_ev_fold2 c g p es : forall m,
+  (forall k, In k famX -> ~ In k (viol m) -> evsA c g p (mb m) es ->
+             ~ In k (viol (fold_left (step_ev c g p) es m))).
+Proof.
+  induction es as [|e es IH]; intros m; cbn [fold_left]; [auto|].
+  intros k Hk Hv [E1 E2]. apply IH; auto.
+  cbn [step_ev viol]. rewrite in_app_iff. intros [H|H]; [contradiction|].
+  apply famX_In in Hk. destruct Hk as [Hk|Hk].
+  - exact (evA_flags c g p (mb m) e k E1 Hk H).
+  - exact (flags_ev_famE c g p (mb m) e k Hk H).
+Qed.
+
+Lemma req_state_x c g p s : X c s -> R2 nobody s -> Dp g s ->
+  X c (req_state p s) /\ R2 nobody (req_state p s) /\ Dp g (req_state p s) /\
+  SRr s (req_state p s) /\ SRr (req_state p s) s.
+Proof.
+  intros Xs Rs Ds. unfold req_state. destruct (cancel_req p).
+  - split; [apply (X_quiet c s); auto|]. split; [apply (R2_quiet nobody s); auto|]. split; [exact Ds|].
+    split; constructor; auto; intros x; apply incl_refl.
+  - repeat (split; [assumption|]). split; apply SRr_refl.
+Qed.
+
+Lemma step_poll_silent2 c g m p s :
+  WF g -> B c g s m -> valid_pin s p = true -> (forall k, In k famX -> ~ In k (viol m)) ->
+  let s1 := fst (poll c g s p) in
+  let m' := step_poll c g m (p, (rev (evs s1), rows_of s1, snd (poll c g s p))) in
+  B c g s1 m' /\ (forall k, In k famX -> ~ In k (viol m')).
+Proof.
+  intros W (I & T & Jh & Xs & Rs & Ds & Pv) V Hv. cbv zeta.
+  set (s1 := fst (poll c g s p)). set (r := snd (poll c g s p)).
+  destruct (req_state_inv c g (dry c) p (rev (evs s1)) s m I T Jh V) as (I0 & T0 & J0 & V0).
+  destruct (req_state_x c g p s Xs Rs Ds) as (X0 & R0 & D0 & S0 & S0').
+  set (m0 := pre_poll p (rev (evs s1)) m) in *.
+  destruct (poll_spec c g p (mb m0) W (dry c) (req_state p s) eq_refl I0 T0 J0 V0) as [(I1 & Cl1 & J1) T1].
+  pose proof (poll_x c g p (mb m0) W (dry c) (req_state p s) eq_refl I0 T0 J0 V0 X0 R0 D0) as PX.
+  cbv zeta in PX. rewrite poll_req_state in *. fold s1 in I1, Cl1, J1, T1, PX. fold r in PX.
+  destruct PX as (X1 & R1 & D1 & S1 & C73 & F).
+  assert (Ssr : SRr s s1) by (eapply SRr_trans; eauto).
+  assert (Hv0 : forall k, In k famX -> ~ In k (viol m0)).
+  { intros k Hk. unfold m0, pre_poll. destruct (cancel_req p) eqn:Ec; [|auto].
+    cbn [viol]. rewrite in_app_iff. intros [Hi|Hi]; [exact (Hv k Hk Hi)|].
+    destruct (C73 eq_refl) as (js & l & E). rewrite E in Hi. destruct Hi. }
+  cbn [step_poll]. fold m0.
+  destruct (step_ev_fold c g p (rev (evs s1)) m0) as [A _].
+  pose proof (step_ev_fold2 c g p (rev (evs s1)) m0) as Bv.
+  set (mm := fold_left (step_ev c g p) (rev (evs s1)) m0) in *.
+  assert (EL : mb mm = led c g p (mb m0) s1) by exact A.
+  destruct J1 as [Jl Js]. rewrite <- EL in Jl, Js.
+  assert (Pm : prev (mb mm) = rows_of s).
+  { rewrite A, prev_fold. unfold m0. rewrite pre_poll_mb. destruct (cancel_req p); exact Pv. }
+  split.
+  - split; [exact I1|]. split; [exact T1|]. split.
+    { cbn [mb]. split.
+      + eapply JL_frame; [| | | | |exact Jl]; auto; tauto.
+      + eapply JS_frame; [| |exact Js]; auto; tauto. }
+    split; [exact X1|]. split; [exact R1|]. split; [exact D1|]. reflexivity.
+  - intros k Hk. cbn [viol]. rewrite in_app_iff. intros [H|H].
+    + exact (Bv k Hk (Hv0 k Hk) Cl1 H).
+    + apply famX_In in Hk. destruct Hk as [Hk|Hk].
+      * exact (flags_end_famA c g p (mb mm) (rows_of s1) r k Hk H).
+      * pose proof (flags_end_cases c g p (mb mm) (rows_of s1) r k H Hk) as FC. cbv zeta in FC.
+        destruct FC as [[_ E]|[[_ E]|[[_ E]|[[_ E]|[[_ E]|[_ E]]]]]].
+        -- rewrite Pm in E. rewrite (end_44 c s s1 (all_nodes g) Xs Rs X1 Ssr) in E. discriminate.
+        -- rewrite (end_46 c s1 (mb mm) (all_nodes g) X1 Js) in E. discriminate.
+        -- rewrite (end_47 c s1 (mb mm) (all_nodes g) X1 Js) in E. discriminate.
+        -- rewrite (end_42 g s1 (mb mm) r I1 Jl (poll_status c g s p)) in E. discriminate.
+        -- rewrite EL in E. rewrite (end_31 c g p (mb m0) s1 r F) in E. discriminate.
+        -- rewrite (end_72 g s1 (mb mm) r Jl (poll_status c g s p)) in E. discriminate.
+Qed.
+
+(** * The whole run *)
+Lemma run_silent2 c g : WF g -> forall ps s m,
+  B c g s m -> valid_run c g s ps = true -> (forall k, In k famX -> ~ In k (viol m)) ->
+  forall k, In k famX -> ~ In k (viol (fold_left (step_poll c g) (zip ps (run c g s ps)) m)).
+Proof.
+  intros W. induction ps as [|p ps IH]; intros s m Bs V Hv; [exact Hv|].
+  cbn [valid_run] in V. apply andb_true_iff in V. destruct V as [V1 V2].
+  pose proof (step_poll_silent2 c g m p s W Bs V1 Hv) as SP. cbv zeta in SP.
+  cbn [run]. destruct (poll c g s p) as [s1 r]. cbn [fst snd] in SP.
+  destruct SP as (B1 & Hv1).
+  destruct r; cbn [zip fold_left].
+  2:{ apply IH; auto. }
+  all: destruct ps; cbn [zip fold_left]; exact Hv1.
+Qed.
+
+Theorem famX_silent c g ps :
+  wf_graph g = true -> valid_run c g (init g) ps = true ->
+  forall k, In k famX -> ~ In k (viol_of c g ps (run c g (init g) ps)).
+Proof.
+  intros Hw V. unfold viol_of, monitor.
+  apply run_silent2; auto.
+  - apply wf_graph_WF. exact Hw.
+  - apply B_init.
+Qed.
+
+(** * The property monitors *)
+Lemma prop_ok_X pid c g ps :
+  wf_graph g = true -> valid_run c g (init g) ps = true ->
+  (forall k, In k (family pid) -> In k famX) -> prop_ok pid c g ps (run c g (init g) ps) = true.
+Proof.
+  intros Hw V H. apply prop_ok_of_codes. intros k Hk. apply famX_silent; auto.
+Qed.
+
+Lemma C03_holds c g ps : wf_graph g = true -> valid_run c g (init g) ps = true ->
+  prop_ok 3 c g ps (run c g (init g) ps) = true.
+Proof. intros Hw V. apply prop_ok_X; auto. cbn. intuition (subst; auto 20). Qed.
+
+Lemma C07_holds c g ps : wf_graph g = true -> valid_run c g (init g) ps = true ->
+  prop_ok 7 c g ps (run c g (init g) ps) = true.
+Proof. intros Hw V. apply prop_ok_X; auto. cbn. intuition (subst; auto 20). Qed.
+
+(** every code of family 4 except 43 *)
+Lemma C04_codes c g ps : wf_graph g = true -> valid_run c g (init g) ps = true ->
+  forall k, In k [4; 41; 42; 44; 46; 47; 40] -> ~ In k (viol_of c g ps (run c g (init g) ps)).
+Proof. intros Hw V k Hk. apply famX_silent; auto. cbn in *. intuition (subst; auto 20). Qed.
+
+Lemma code_silent c g ps k : wf_graph g = true -> valid_run c g (init g) ps = true -> In k famX ->
+  ~ In k (viol_of c g ps (run c g (init g) ps)).
+Proof. intros. apply famX_silent; auto. Qed.
+
+(** * State-level readings at poll boundaries *)
+Lemma run_states_ok c g ps s r : wf_graph g = true -> valid_run c g (init g) ps = true ->
+  In (s, r) (run_states c g (init g) ps) -> Inv g s /\ Thr c s.
+Proof.
+  intros Hw V Hin.
+  eapply (run_states_inv c g (wf_graph_WF g Hw) ps (init g) (base0 g)); eauto.
+  - apply Inv_init.
+  - apply Thr_init.
+  - apply J_init.
+Qed.
+
+Lemma C03_states c g ps s r : wf_graph g = true -> valid_run c g (init g) ps = true ->
+  In (s, r) (run_states c g (init g) ps) -> throttle c > 0 -> length (inprog s) <= throttle c.
+Proof. intros Hw V Hin. destruct (run_states_ok c g ps s r Hw V Hin) as [_ T]. exact T. Qed.
+
+Lemma C04_states c g ps s r : wf_graph g = true -> valid_run c g (init g) ps = true ->
+  In (s, r) (run_states c g (init g) ps) ->
+  (forall x, In x (completed s) -> ~ In x (inprog s)) /\
+  (forall x, In x (completed s) -> ~ In x (ready s)) /\
+  (forall x, In x (inprog s) -> ~ In x (ready s)) /\
+  (forall x, In x (failed s) \/ In x (cancelled s) ->
+             ~ In x (completed s) /\ ~ In x (inprog s) /\ ~ In x (ready s)) /\
+  NoDup (inprog s) /\ NoDup (ready s).
+Proof.
+  intros Hw V Hin. destruct (run_states_ok c g ps s r Hw V Hin) as [I _]. dI I.
+  split; [exact Ici|]. split; [exact Icr|]. split; [exact Iir|]. split; [exact Ifc|]. split; assumption.
 Qed.
